@@ -693,13 +693,27 @@ def oracle_cfgsim(case, impl):
     t = case.split()
     # recover the step kinds from the case line
     kinds = [x for x in t if x in STEP_KINDS]
+    kpos = [j for j, x in enumerate(t) if x in STEP_KINDS] + [len(t)]
+    step_toks = [t[kpos[j]:kpos[j + 1]] for j in range(len(kinds))]
     viol = []
+
+    def flag_opts(toks):
+        """the last three options of a BankConfigOpt: permissionless bad-debt settlement, freeze, token-less repayments"""
+        out, toks = [], list(toks)
+        for _ in range(3):
+            if toks[-1] == "N":
+                out.append(None)
+                toks = toks[:-1]
+            else:
+                out.append(int(toks[-1]))
+                toks = toks[:-2]
+        return out[::-1]
 
     def em_bad(b):
         return emode_violation(b["emode"]["entries"], b["cfg"]["lwi"], b["cfg"]["lwm"], caps[0], caps[1])
 
     em_ok = {2: em_bad(b2) is None}
-    for kind, seg in zip(kinds, segs[1:]):
+    for (kind, stoks), seg in zip(zip(kinds, step_toks), segs[1:]):
         if seg.startswith("H "):
             ai, li, am, lm = (int(x) for x in seg.split()[1:5])
             if li == 0 and lm > 0:
@@ -738,6 +752,16 @@ def oracle_cfgsim(case, impl):
             else:
                 viol.append({"key": "accepted-invalid-emode", "what": f"{kind} on bank {i} left e-mode entries invalid for the bank: {why}"})
         em_ok[i] = why is None
+        if kind == "CFG" and old is not None and not frozen:
+            # the three opt-in flags follow the request exactly: Some(b) -> bit = b, None -> unchanged (a bank that never
+            # opted into permissionless bad-debt settlement must not end up with the flag)
+            for (name, bit), want in zip((("permissionless bad-debt settlement", 4), ("freeze settings", 8), ("token-less repayments", 32)),
+                                         flag_opts(stoks)):
+                have = 1 if nb["flags"] & bit else 0
+                exp = (1 if old["flags"] & bit else 0) if want is None else want
+                if have != exp:
+                    viol.append({"key": f"config-flag-not-as-requested:{bit}",
+                                 "what": f"configure_bank on bank {i}: {name} requested {want}, flag was {1 if old['flags'] & bit else 0}, is now {have}"})
         if old is not None and kind not in ("KILL", "ADD", "ADS"):
             if old["cfg"]["op"] == 3 and nb["cfg"]["op"] != 3:
                 viol.append({"key": "killed-bank-revived",
